@@ -42,3 +42,15 @@ def group_ungroup(chk, rule):
         except la.Unknown as e:
             chk.unknown(rule, site, f"group/ungroup ({what}): {e}")
     chk.floor(rule, n, 3, "group/ungroup layout instances")
+    # the helpers receive whatever tensor the caller holds (transposed kernels, channels_last, slices): `view` on it requires a
+    # compatible stride, `reshape` does not
+    for mi_, fn_ in ((mg, g), (mu, ug)):
+        tp = fn_.args.args[0].arg
+        derived = {tp}
+        for st in ast.walk(fn_):
+            if isinstance(st, ast.Assign) and isinstance(st.value, ast.Call) and isinstance(st.value.func, ast.Attribute) and st.value.func.attr in ("permute", "transpose", "t") \
+                    and any(isinstance(x, ast.Name) and x.id in derived for x in ast.walk(st.value.func.value)):
+                derived |= {t_.id for t_ in st.targets if isinstance(t_, ast.Name)}
+        views = [nd for nd in ast.walk(fn_) if isinstance(nd, ast.Call) and isinstance(nd.func, ast.Attribute) and nd.func.attr == "view" and isinstance(nd.func.value, ast.Name) and nd.func.value.id in derived]
+        chk.require(rule, f"{mi_.rel}:{fn_.lineno}", not views, f"{fn_.name}: no `.view(...)` on the caller's (possibly non-contiguous) tensor or on a permuted one ({[U(v)[:40] for v in views]})", fn_.name, "view on a possibly non-contiguous tensor",
+                    "a non-contiguous weight (w.t() of an (in, out) matrix, a channels_last kernel, w[:, ::2]): RuntimeError where the contiguous copy quantizes fine")
